@@ -735,6 +735,40 @@ def run_make_query(case):
         out = [int(q.question[0].rdtype), s]
     except Exception as e:  # noqa
         return exc_code(e)
+    # the rest of the query (not in the model; a violation is reported as an exception with a code >= 900)
+    bad = None
+    qq = q.question
+    if len(qq) != 1 or qq[0].name != ORIGIN or qq[0].rdclass != IN or len(qq[0]) != 0:
+        bad = "question is not <origin, class of the zone, rdtype>"
+    elif s is None and (q.authority or int(qq[0].rdtype) != AXFR):
+        bad = "AXFR query with an authority section"
+    elif s is not None:
+        au = q.authority
+        if int(qq[0].rdtype) != IXFR or len(au) != 1 or au[0].name != ORIGIN or au[0].rdclass != IN or \
+                int(au[0].rdtype) != SOA or len(au[0]) != 1 or au[0][0].serial != s:
+            bad = "IXFR query whose authority section is not one SOA with the serial"
+    if bad is None and (q.edns != -1 or q.keyring is not None):
+        bad = "EDNS or TSIG although none was asked for"
+    if bad is None:
+        try:
+            kr = {dns.name.from_text("k1."): b"abcd", dns.name.from_text("k2."): b"efgh"}
+            q2, s2 = dns.xfr.make_query(z, ser, use_edns=0, ednsflags=dns.flags.DO, payload=1400, request_payload=1300,
+                                        options=[dns.edns.GenericOption(65001, b"x")], keyring=kr,
+                                        keyname=dns.name.from_text("k2."), keyalgorithm=dns.tsig.HMAC_SHA512)
+            if s2 != s or q2.question != q.question or [r.to_text() for r in q2.authority] != [r.to_text() for r in q.authority]:
+                bad = "EDNS / TSIG parameters change the question, the authority section or the serial"
+            elif (q2.edns, q2.ednsflags & dns.flags.DO, q2.payload, q2.request_payload) != (0, dns.flags.DO, 1400, 1300) or \
+                    len(q2.options) != 1 or q2.options[0].otype != 65001:
+                bad = "EDNS parameters are not passed through"
+            elif q2.keyring is None or q2.keyring.name != dns.name.from_text("k2.") or q2.keyring.secret != b"efgh" or \
+                    q2.keyring.algorithm != dns.tsig.HMAC_SHA512:
+                bad = "TSIG key name / algorithm are not passed through"
+            elif len(q2.to_wire()) <= len(q.to_wire()):
+                bad = "the signed query with EDNS renders no longer than the plain one"
+        except Exception as e:  # noqa
+            bad = "make_query with EDNS and TSIG parameters raised " + type(e).__name__
+    if bad is not None:
+        return Err(950, "make_query: " + bad)
     try:
         out.append(dns.xfr.extract_serial_from_query(q))
     except Exception as e:  # noqa
